@@ -146,10 +146,10 @@ def parse_gbs(gbs_basis_file):
             # if len(angmom_seg) == 1:
             #     coeffs_seg = coeffs_seg[:, None]
             for i, angmom in enumerate(angmom_seg):
-                # ensure previous and current exps are same length before using np.allclose()
+                # ensure previous and current exps are same length before comparing them
                 if output[atom] and len(output[atom][-1][1]) == len(exps):
                     # check if current exp's should be added to previous generalized contraction
-                    hstack = np.allclose(output[atom][-1][1], exps)
+                    hstack = np.array_equal(output[atom][-1][1], exps)
                 else:
                     hstack = False
                 if output[atom] and output[atom][-1][0] == angmom and hstack:
